@@ -147,10 +147,65 @@ func run(r *hx.Result, cfg hx.Config) {
 	}
 	r.Sample(3, map[string]interface{}{"reachable_lua_names": len(names), "first": names[:min(8, len(names))]})
 
+	// ---------- a script must not be able to pick its own tile38.call path ----------
+	{
+		before := srv.Dump(c)
+		for _, v := range []string{"EVALRO", "EVALROSHA"} {
+			script := "EVAL_CMD = 'eval' return tile38.call('set','forged','a','point',1,1)"
+			var rv srv.Value
+			if v == "EVALROSHA" {
+				sha := c.MustDo("SCRIPT", "LOAD", script)
+				rv = c.MustDo(v, sha.Str, "0")
+			} else {
+				rv = c.MustDo(v, script, "0")
+			}
+			r.Count("forge/"+v, true)
+			if rv.Kind != '-' {
+				r.Fail(hx.Failure{Kind: "oracle", Signature: "evalro-forged-evalcmd", What: fmt.Sprintf("%s with a script that assigns EVAL_CMD = 'eval' performed a write: %s", v, rv.String())})
+			}
+		}
+		if d := srv.Dump(c); d != before {
+			r.Fail(hx.Failure{Kind: "oracle", Signature: "evalro-forged-evalcmd", What: "the dataset changed after EVALRO scripts that overwrite EVAL_CMD", Case: map[string]string{"before": before, "after": d}})
+		}
+		// EVALNA forging the atomic path would write while holding no lock: it must stay per-call
+		// (observable: the reply is fine either way, so this is covered by the table theorems and by
+		// the EVALRO probe above, which goes through the same lookup)
+	}
+
+	// ---------- pool growth: states created on demand must be guarded like the initial ones ----------
+	{
+		var wg sync.WaitGroup
+		leaked := 0
+		var mu sync.Mutex
+		for i := 0; i < 12; i++ {
+			wg.Add(1)
+			go func(i int) {
+				defer wg.Done()
+				cc := s.MustDial()
+				defer cc.Close()
+				// busy scripts occupy the pooled states so that new ones are created
+				cc.MustDo("EVALNA", "local t = os.clock() while os.clock() - t < 0.05 do end return 1", "0")
+				v := cc.MustDo("EVALNA", fmt.Sprintf("leak%d = 1 return 1", i), "0")
+				if v.Kind != '-' {
+					mu.Lock()
+					leaked++
+					mu.Unlock()
+				}
+			}(i)
+		}
+		wg.Wait()
+		r.Count("pool-growth/12 concurrent", true)
+		if leaked > 0 {
+			r.Fail(hx.Failure{Kind: "oracle", Signature: "sandbox-new-global-on-grown-state", What: fmt.Sprintf("%d of 12 concurrent scripts created a new global: states created when the pool grows are not guarded", leaked)})
+		}
+	}
+
 	// ---------- atomicity ----------
 	incr := `local v = tile38.call('get', KEYS[1], 'n') local n = tonumber(v) + 1 tile38.call('set', KEYS[1], 'n', 'string', tostring(n)) return n`
 	pair := `tile38.call('set', 'pairA', 'v', 'string', ARGV[1]) tile38.call('set', 'pairB', 'v', 'string', ARGV[1]) return 1`
 	observe := `local a = tile38.call('get', 'pairA', 'v') local b = tile38.call('get', 'pairB', 'v') if a == b then return 1 else return 0 end`
+	incrSha := c.MustDo("SCRIPT", "LOAD", incr).Str
+	pairSha := c.MustDo("SCRIPT", "LOAD", pair).Str
 	rounds := 3
 	iters := 150
 	if cfg.Tier == "thorough" || cfg.Search {
@@ -158,7 +213,7 @@ func run(r *hx.Result, cfg hx.Config) {
 	}
 	for round := 0; round < rounds; round++ {
 		clients := 2 + rng.Intn(7)
-		for _, variant := range []string{"EVAL", "EVALNA"} {
+		for _, variant := range []string{"EVAL", "EVALSHA", "EVALNA"} {
 			key := fmt.Sprintf("ctr-%s-%d", variant, round)
 			c.MustDo("SET", key, "n", "STRING", "0")
 			c.MustDo("SET", "pairA", "v", "STRING", "0")
@@ -175,8 +230,13 @@ func run(r *hx.Result, cfg hx.Config) {
 					for j := 0; j < iters; j++ {
 						switch i % 3 {
 						case 0, 1:
-							cc.MustDo(variant, incr, "1", key)
-							cc.MustDo(variant, pair, "0", strconv.Itoa(i*100000+j))
+							if variant == "EVALSHA" {
+								cc.MustDo(variant, incrSha, "1", key)
+								cc.MustDo(variant, pairSha, "0", strconv.Itoa(i*100000+j))
+							} else {
+								cc.MustDo(variant, incr, "1", key)
+								cc.MustDo(variant, pair, "0", strconv.Itoa(i*100000+j))
+							}
 						case 2:
 							v := cc.MustDo("EVALRO", observe, "0")
 							if v.Kind == ':' && v.Int == 0 {
@@ -200,12 +260,12 @@ func run(r *hx.Result, cfg hx.Config) {
 			r.Count(fmt.Sprintf("atomic/%s/%d clients/%d iters", variant, clients, iters), clients >= 2)
 			r.Dist("atomic:" + variant)
 			r.Sample(6, map[string]interface{}{"variant": variant, "clients": clients, "iterations": iters, "counter": got.Str, "expected_if_atomic": want, "torn_observations": torn})
-			if variant == "EVAL" {
+			if variant == "EVAL" || variant == "EVALSHA" {
 				if got.Str != want {
-					r.Fail(hx.Failure{Kind: "oracle", Signature: "eval-lost-update", What: fmt.Sprintf("%d clients x %d EVAL read-modify-write scripts left the counter at %s, expected %s: another command took effect between a script's calls", writers, iters, got.Str, want)})
+					r.Fail(hx.Failure{Kind: "oracle", Signature: "eval-lost-update", What: fmt.Sprintf("%d clients x %d "+variant+" read-modify-write scripts left the counter at %s, expected %s: another command took effect between a script's calls", writers, iters, got.Str, want)})
 				}
 				if torn > 0 {
-					r.Fail(hx.Failure{Kind: "oracle", Signature: "eval-torn-read", What: fmt.Sprintf("an EVALRO observer saw the two keys of one EVAL script differ %d times", torn)})
+					r.Fail(hx.Failure{Kind: "oracle", Signature: "eval-torn-read", What: fmt.Sprintf("an EVALRO observer saw the two keys of one %s script differ %d times", variant, torn)})
 				}
 			}
 		}
